@@ -16,7 +16,7 @@ Definition model_ops : list op :=
 Lemma gen_tie :
   map (fun o => hd 0 (ser o)) model_ops = g_opcodes /\
   ser OProto = [g_PROTO; g_protocol] /\
-  hd 0 (nser (NGlobal [])) = g_GLOBAL /\
+  hd 0 (nser (NGlobal [])) = g_GLOBAL /\ nser NPop = [g_POP] /\ nser NPopMark = [g_POP_MARK] /\
   Z.of_nat BATCHSIZE = g_batchsize /\
   name_module ++ name_set = g_set_global /\ name_module ++ name_fset = g_fset_global /\
   g_set_global = g_live_set_global /\ g_fset_global = g_live_fset_global /\
